@@ -742,7 +742,6 @@ func findErrGlobal(c *Ctx, qual string) *ssa.Global {
 	return nil
 }
 
-
 // parksOn: the instruction can block the goroutine for an unbounded time on something other than I/O: a channel
 // send or receive, a select without default, a WaitGroup or Cond wait. (Mutexes are not counted: the critical
 // sections of this code base are short and lock-order rules cover them.)
